@@ -82,6 +82,9 @@ def query_of(case):
 
 def run_case(case):
     q, pos, expr = build(case)
+    if case.get('pre_ref'):
+        # the same text asked a moment earlier under another reference must not influence this answer
+        G.parse('en-us', q, case['pre_ref'])
     got = G.parse('en-us', q, case['ref'])
     ref = dt.datetime.fromisoformat(case['ref'])
     vs = []
@@ -138,7 +141,8 @@ def cases():
         st.sampled_from(FAMILIES_PLAIN).map(lambda f: {'family': f}),
         st.builds(lambda f, n: {'family': f, 'n': n}, st.sampled_from(FAMILIES_N), ns),
         st.builds(lambda f, w: {'family': f, 'wd': w}, st.sampled_from(FAMILIES_WD), st.integers(0, 6)))
-    return st.builds(lambda c, r, ci: dict(c, ref=r, carrier=CARRIERS[ci]), fam, G.refs(), st.integers(0, 5))
+    return st.builds(lambda c, r, ci, pre: dict(c, ref=r, carrier=CARRIERS[ci], pre_ref=pre), fam, G.refs(), st.integers(0, 5),
+                     st.one_of(st.none(), st.none(), G.refs()))
 
 
 def parts(tier, seed):
